@@ -49,15 +49,20 @@ META = dict(
 
 INV = 'ReadsEqualSource FailedSourceNeverWrongBytes NeverBeyondSize MediaOnlyCorrectOrHole RefillDedup RangeLockDisjoint RefillingCount LocksAtRest TypeOK'
 # (cfg, expected violated invariant or None)
-MC_Q = [('MC_Cache_quick.cfg', None), ('MC_Cache_quick_async.cfg', None), ('MC_Cache_w_nomrl.cfg', 'ReadsEqualSource')]
+MC_Q = [('MC_Cache_quick.cfg', None), ('MC_Cache_quick_async.cfg', None), ('MC_Cache_w_nomrl.cfg', 'ReadsEqualSource'),
+        ('MC_Cache_kf_punchend.cfg', 'KF')]
 MC_T = [('MC_Cache_quick.cfg', None), ('MC_Cache_quick_async.cfg', None),
         ('MC_Cache_t_fiemap.cfg', None), ('MC_Cache_t_fiemap_ru2.cfg', None), ('MC_Cache_t_map.cfg', None), ('MC_Cache_t_capfull.cfg', None),
-        ('MC_Cache_t_2files.cfg', None), ('MC_Cache_t_reopen.cfg', None),
+        ('MC_Cache_t_2files.cfg', None), ('MC_Cache_t_reopen.cfg', None), ('MC_Cache_t_punchend.cfg', None),
+        ('MC_Cache_kf_punchend.cfg', 'KF'),
         ('MC_Cache_w_nomrl.cfg', 'ReadsEqualSource'), ('MC_Cache_w_nowlock.cfg', 'ReadsEqualSource'),
         ('MC_Cache_w_noclamp.cfg', 'NeverBeyondSize'), ('MC_Cache_w_shortok.cfg', 'ReadsEqualSource'),
         ('MC_Cache_w_tailfront.cfg', 'ReadsEqualSource'), ('MC_Cache_w_asyncunlock.cfg', 'RefillDedup')]
-MODES_Q = [('map', 40), ('fiemap', 40), ('capfull', 30), ('async', 40)]
-MODES_T = [('map', 700), ('fiemap', 700), ('capfull', 500), ('async', 700)]
+MODES_Q = [('map', 40), ('fiemap', 40), ('capfull', 30), ('async', 40), ('punchend', 6)]
+MODES_T = [('map', 700), ('fiemap', 700), ('capfull', 500), ('async', 700), ('punchend', 40)]
+
+
+mc_finding = []      # replay files of the model-level counterexample of C17a
 
 
 def model_check(ctx, runs, workers, par):
@@ -76,6 +81,13 @@ def model_check(ctx, runs, workers, par):
                 rp = ctx.save_replay(f'mc_{cfg}.txt', r['out'][-12000:])
                 ctx.violation(f'specification Cache/{cfg} violates {r["inv_violated"] or ("deadlock" if r["deadlock"] else "a property")}', rp)
                 ok = False
+        elif expect == 'KF':
+            # the finding C17a in the model as written (PunchGuard = FALSE): documented counterexample, not a witness of vacuity
+            ctx.extra['model_as_written_violates_with_evict_to_end_past_the_end'] = r['inv_violated']
+            if r['inv_violated'] and not (set(r['inv_violated']) <= {'ReadsEqualSource', 'NeverBeyondSize'}):
+                raise vtlib.InfraError(f'Cache.tla / {cfg}: unexpected invariant {r["inv_violated"]}')
+            if r['inv_violated']:
+                mc_finding.append(ctx.save_replay(f'mc_{cfg}.txt', r['out'][-12000:]))
         else:
             caught[cfg] = r['inv_violated']
             if expect not in r['inv_violated']:
@@ -95,15 +107,78 @@ def why(rj):
     return re.sub(r'\s+', ' ', m[-1][1]).replace('\\"', '"') if m else ''
 
 
+# Finding met by this check on the pinned tree.  It is tolerated (printed as a KNOWN-FINDING line) only when
+# known-findings.json lists it as open for C17, and only with its exact signature: classify() below.  While it is not
+# listed it is reported as a VIOLATION.  DELETE the id here (and KF_C17A in Trace_CacheA.tla, MC_Cache_kf_punchend.cfg)
+# when a fix: commit lands.
+KNOWN_TEXT = {
+    'C17a': 'evict-to-end at an offset past the end of the media file (CachedFile::fallocate(offset, -1) -> FileCacheStore::evict(offset, -1), '
+            'fs/cache/full_file_cache/cache_store.cpp:186-187) calls ftruncate(offset) and so EXTENDS the media file to a page-aligned size larger '
+            'than the source; the next pool instance over that directory takes the media size as the file size (ICachePool::open, '
+            'fs/cache/cache.cpp:95-98; tryget_size only ever grows it): reads then return zero bytes beyond the source\'s end, or clamp the refill '
+            'to the wrong size, get a short source read and fail with -1',
+}
+TOLERATED = set()
+
+
+def _tolerated(ctx):
+    TOLERATED.update(f['id'] for f in ctx.kf.get('open', []) if f.get('property') == 'C17' and f.get('id') in KNOWN_TEXT)
+
+
+def signature_c17a(rj):
+    """exact shape: before the rejected event, an evict-to-end on file f at an offset beyond f's size, then a Reopen; the rejected event is a
+    read of f (its result, or a source / media read made for f)"""
+    ex, at = rj['exec'], rj['at']
+    ev = ex[at - 1]
+    sizes = ex[0].get('sizes', [])
+    f = ev.get('f')
+    if ev['e'] == 'ReadResp':
+        inv = [r for r in ex[:at - 1] if r['e'] == 'ReadInv' and r['t'] == ev['t']]
+        f = inv[-1]['f'] if inv else None
+    if ev['e'] not in ('ReadResp', 'SrcRead', 'MediaRead') or f is None or f >= len(sizes):
+        return False
+    punched = None
+    for i, r in enumerate(ex[:at - 1]):
+        if r['e'] == 'PunchInv' and r['f'] == f and r['len'] == -1 and r['off'] > sizes[f]:
+            punched = i
+        if r['e'] == 'Reopen' and punched is not None and i > punched:
+            return True
+    return False
+
+
+def classify(ctx, rj):
+    if 'C17a' not in KNOWN_TEXT or not signature_c17a(rj):
+        return None
+    if not synccheck.accepted_with(ctx, 'Trace_CacheA', 'Trace_CacheA.cfg', rj, {'KF_C17A': '1'}, 'Trace_CacheA_kf'):
+        return None
+    return 'C17a'
+
+
 def report(ctx, rejs, what):
+    _tolerated(ctx)
     for rj in rejs:
         reason = why(rj)
         ev = rj['event']
         if reason.startswith('ENV:') or reason.startswith('harness:'):
             raise vtlib.InfraError(f'{what}: the recorded environment is not one the media model allows - {reason}; event {json.dumps(ev)[:300]} (log {rj["log"]})')
+        fid = classify(ctx, rj)
+        if fid and fid in TOLERATED:
+            ctx.known(fid, KNOWN_TEXT[fid])
+            continue
         lines = [json.dumps(r, separators=(',', ':')) for r in rj['exec']]
         rp = ctx.save_replay(f'Trace_CacheA_{what}_{len(ctx.violations)}.ndjson', '\n'.join(lines) + '\n')
-        ctx.violation(f'{what}: recorded execution rejected at event #{rj["at"]} {json.dumps(ev)[:240]} :: {reason or "no action of the trace specification accepts it"}', rp)
+        tag = f' [finding {fid}, not listed in known-findings.json: {KNOWN_TEXT[fid]}]' if fid else ''
+        ctx.violation(f'{what}: recorded execution rejected at event #{rj["at"]} {json.dumps(ev)[:240]} :: {reason or "no action of the trace specification accepts it"}{tag}', rp)
+
+
+def drop_logs(ctx):
+    """TLC prints the whole accepted behaviour (that is how acceptance shows): tens of MB per chunk; keep the logs of rejections only"""
+    for p in glob.glob(f'{ctx.out}/tlc_Trace_CacheA*.log'):
+        try:
+            if os.path.getsize(p) > (1 << 20):
+                os.unlink(p)
+        except OSError:
+            pass
 
 
 def clean_media(ctx):
@@ -157,6 +232,7 @@ def run(ctx):
         acc, rejs, n = tracecheck.validate(ctx, 'Trace_CacheA', 'Trace_CacheA.cfg', allrows, chunk_events=3500 if quick else 12000,
                                            par=6, tagbase='Trace_CacheA')
         report(ctx, rejs, 'execution')
+        drop_logs(ctx)
         ctx.extra.update({'executions_recorded': n, 'cached_reads_judged': reads, 'event_kinds': kinds})
         # anti-vacuity of the conformance part: hits, refills, evictions, faults and reopening must all have occurred
         missing = [k for k in ('MediaRead', 'MediaWrite', 'MediaTrunc', 'SrcRead', 'SrcRead:fault', 'Reopen', 'EvictInv') if not kinds.get(k)]
@@ -183,5 +259,8 @@ def replay(ctx, path):
         return 1 if ctx.violations else 0
     acc, rejs, n = tracecheck.validate(ctx, 'Trace_CacheA', 'Trace_CacheA.cfg', path, tagbase='replay')
     report(ctx, rejs, 'replay')
+    drop_logs(ctx)
     print(f'replayed {n} execution(s): {acc} accepted, {len(rejs)} rejected')
+    for fid in sorted({f for f, _ in ctx.known_hits}):
+        print(f'KNOWN-FINDING: property={ctx.pid} {fid}: {KNOWN_TEXT[fid]}', flush=True)
     return 1 if ctx.violations else 0
